@@ -70,9 +70,45 @@ def opIntegrate (j : Json) : Except String Json := do
     | .error e => pure (wrapErr e)
   | e => .error s!"unknown entry {e}"
 
+/-- one operation of a session (see `SOp`) -/
+def sopOfJson (j : Json) : Except String (SOp Rat (List Rat)) := do
+  let k ← (fld j "k").getStr?
+  let need (t : Option (TimeArg Rat)) : Except String (TimeArg Rat) :=
+    match t with
+    | some t => pure t
+    | none => .error "t=None is only meaningful for solve_determ"
+  match k with
+  | "setX0" => pure (.setX0 (← listOfJson ratOfJson (fld j "x")))
+  | "setT0" => pure (.setT0 (← ratOfJson (fld j "t")))
+  | "setBoth" => pure (.setBoth (← listOfJson ratOfJson (fld j "x")) (← ratOfJson (fld j "t")))
+  | "integrate" => pure (.integrate (← need (← timeArgOfJson (fld j "t"))))
+  | "solve_determ" => pure (.solveDeterm (← timeArgOfJson (fld j "t")))
+  | "integrate2" => pure (.integrate2 (← optStrOfJson (fld j "method")) (← need (← timeArgOfJson (fld j "t"))))
+  | e => .error s!"unknown session operation {e}"
+
+/-- Driver op `session`: `runOps` on the exact flow of x' = c, from an instance holding `(x0, t0)` -/
+def opSession (j : Json) : Except String Json := do
+  let aj := fld j "aliased"
+  let al : List (Integrator × Bool) ← [Integrator.lsoda, .vodeAdams, .vodeBdf, .dopri5, .dop853].mapM
+    (fun i => do let b ← boolFld aj i.name; pure (i, b))
+  let c ← listOfJson ratOfJson (fld j "c")
+  let E : SEnv Rat (List Rat) :=
+    { S := linSys c (← triple (fld j "eigA")) (← triple (fld j "eigB")),
+      aliased := fun i => (al.lookup i).getD false, copyOnRead := ← boolFld j "copyOnRead" }
+  let s0 : Inst Rat (List Rat) := { x0 := ← listOfJson ratOfJson (fld j "x0"), t0 := ← ratOfJson (fld j "t0") }
+  let ops ← listOfJson sopOfJson (fld j "ops")
+  let r := runOps E s0 ops
+  let outJ (o : Except IErr (List (List Rat))) : Json :=
+    match o with
+    | .ok rows => Json.mkObj [("rows", ratMatToJson rows)]
+    | .error e => Json.mkObj [("err", e.toString)]
+  pure (Json.mkObj [("outputs", Json.arr (r.2.map outJ).toArray), ("x0", ratsToJson r.1.x0), ("t0", ratToJson r.1.t0),
+                    ("odeTime", match r.1.odeTime with | some ts => ratsToJson ts | none => Json.null)])
+
 def handleIntegrate (op : String) (j : Json) : Option (Except String Json) :=
   match op with
   | "integrate" => some (opIntegrate j)
+  | "session" => some (opSession j)
   | _ => none
 
 end Pygom
